@@ -106,6 +106,9 @@ func canonCond(pipe string) string {
 // checkRangeFilters: every filtering range of the Go-producing templates is a reviewed entry, and
 // occurs no more often than reviewed.
 func checkRangeFilters(c *Ctx, rule string, ev *tmpl.Evaluator, allow map[string]rangeFilterEntry, floor int) {
+	if c.Contrib != "" {
+		return // the reviewed table describes the standard templates; contributed sets replace whole assets
+	}
 	c.Rule(rule, "a template range whose whole body sits under one `if` (a filter on which elements produce any output) is a reviewed entry", floor)
 	seen := map[string]int{}
 	for _, k := range rangeFilters(ev, true) {
